@@ -35,8 +35,9 @@ def run(tier):
         annot.run_mcs(rep, sc, MCS[tier])
         recipes = annot.usable_recipes(tier) + annot.probe_recipes("C03", tier)
         cases = lib.pmap(annot.record_c03, recipes)
-        res, info = annot.validate("C03", cases, sc)
-        by_id = {c["id"]: c for c in cases}
+        chem = annot.chem_table_case()
+        res, info = annot.validate("C03", cases + [chem], sc)
+        by_id = {c["id"]: c for c in cases + [chem]}
         rep.add_trace(res, by_id, "C03")
         cov = rep.cov
         cov["pairs_reported"] = sum(len(c["pairs"]) for c in cases)
@@ -81,9 +82,9 @@ def replay(doc):
     rep = lib.Report(PID, "quick", "exploration", evidence=False)
     with lib.Scratch("c03r") as sc:
         measurer.constants(sc)
-        rec = annot.record_c03(case["recipe"])
+        rec = annot.chem_table_case() if case.get("kind") == "chem" else annot.record_c03(case["recipe"])
         res, info = annot.validate("C03", [rec], sc)
         rep.add_trace(res, {rec["id"]: rec}, "C03")
-        rep.cov["samples"] = [{"id": rec["id"], "recipe": rec["recipe"]}]
+        rep.cov["samples"] = [{"id": rec["id"], "recipe": rec.get("recipe")}]
         rep.cov["distinct_nontrivial"] = 1
     return rep.finish()
